@@ -341,3 +341,36 @@ func inputsRead(p []op) map[int]bool {
 	}
 	return m
 }
+
+// genInspect: decode (Reader or SliceReader) of two or three AC-3 / E-AC-3 / zoo inputs, each followed by Info (which
+// includes ChannelInfo against the reference) and sometimes Encode / EncodeSW.  Goroutine t starts at a different
+// configuration than its neighbours, so that concurrent goroutines look at DIFFERENT boxes.
+func genInspect(rng *hx.Rng, c *corpus, t int) []op {
+	var p []op
+	next := 0
+	nAC3 := c.endAC3 - c.firstAC3
+	for j := 0; j < 2+rng.Intn(2); j++ {
+		k := c.firstAC3 + (t*7+j*3+rng.Intn(3))%nAC3
+		if rng.Intn(5) == 0 {
+			if z := c.pick(rng, func(i int, in inputInfo) bool { return in.role == "zoo" }); z >= 0 {
+				k = z
+			}
+		}
+		code := byte('D')
+		if rng.Bool() {
+			code = 'R'
+		}
+		f := next
+		p = append(p, op{code: code, src: fmt.Sprintf("i%d", k), d: f}, op{code: 'I', o: f, d: f + 1})
+		next += 2
+		if rng.Intn(3) == 0 {
+			e := byte('E')
+			if rng.Bool() {
+				e = 'W'
+			}
+			p = append(p, op{code: e, o: f, d: next})
+			next++
+		}
+	}
+	return p
+}
